@@ -341,7 +341,7 @@ PROPS["C03"] = {
 PROPS["C08"] = {
     "lean": ["C08"],
     "required": ["C08.c08_plan_within_quota", "C08.c08_slots_within_flavor", "C08.c08_no_plan_on_unattached", "C08.planPass_within"],
-    "rule": _IP_RULE + " Closed loop: the fault profiles also answer the Node CR's status write with a Conflict in 1 pass of 5 (status-update conflicts); three regression seeds run first (lost synchronisation after two conflicts in a row, fixed 6131003; failed roll-back delete whose record is lost with a conflicting status write, known finding; cloud address on an interface whose record has none of that family left, fixed 7563783). The vSwitch pool's histories (C17's generator, model and monitors: a vSwitch reported exhausted comes back once its cache entry expires) run inside this check as well.",
+    "rule": _IP_RULE + " Closed loop: the fault profiles also answer the Node CR's status write with a Conflict in 1 pass of 5 (status-update conflicts) and serve the controller's read of the Node CR from a lagging cache in 1 pass of 3 (the object as it was before the previous pass wrote it; the API server then refuses that pass's write); three regression seeds run first (lost synchronisation after two conflicts in a row, fixed 6131003; failed roll-back delete whose record is lost with a conflicting status write, known finding; cloud address on an interface whose record has none of that family left, fixed 7563783). The vSwitch pool's histories (C17's generator, model and monitors: a vSwitch reported exhausted comes back once its cache entry expires) run inside this check as well.",
     "technique": "Lean 4: getEniOptions/assignEniWithOptions modelled as functions of the interface order, quota theorems by induction over the option list; differential correspondence of the real planning functions; closed-loop runs of the real Reconcile against a fake cloud with fault injection (monitors)",
     "level_text": "Theorems for every interface order, record and demand: on an existing interface the plan asks for no more than its quota leaves and only when it is in use; for a new interface no more than the per-interface quota; never more than a batch; existing interfaces plus new slots never exceed the flavor. Convergence to a fixed point and rollback of failed creation are exercised by the closed-loop runs (monitors), not proved: partial.",
     "level_note": "Trusted: Lean kernel; fake cloud and fake API server of the closed-loop runs.",
